@@ -119,9 +119,9 @@ class GAF:
 
     def parse_gaf_line(self, line):
         if not self.gz_flag:
-            fields = line.rstrip().split("\t")
+            fields = line.rstrip("\r\n").split("\t")
         else:
-            fields = line.decode("utf-8").rstrip().split("\t")
+            fields = line.decode("utf-8").rstrip("\r\n").split("\t")
 
         # If the query name has spaces (e.g., GraphAligner), we get rid of the segment after the space
         query_name = fields[0].split(" ")[0]
